@@ -59,4 +59,15 @@ CHECKS = {
         assumptions=["time zone UTC", "the unlimited ranged query itself is checked by C11"],
         technique="metamorphic property-based testing (limited query vs prefix/suffix of unlimited query)",
     ),
+    "C14": dict(
+        test="TestC14", level="exploration", shards=16,
+        tiers=dict(quick=dict(checks=80, timeout=600), thorough=dict(checks=4000, timeout=3000)),
+        rule="rapid (bucket schema, input schema) pairs: edits none/reorder/retype (all numeric wire types)/drop/add/"
+             "rename/case applied to one of 1-4 buckets of a single WriteCSM request, fixed and variable buckets, value "
+             "classes min/max/0/fractions/huge; oracle: name mismatch => error and no bucket of the request changes "
+             "(immediately and after the next unrelated flush); name match => values read back under the same names, "
+             "converted by Go numeric conversion (out-of-range float->int not asserted); non-trivial = mismatch in a "
+             "multi-bucket request, or a retyped/reordered accepted write",
+        assumptions=["float->integer conversion outside the target range is implementation-defined in Go and only counted"],
+    ),
 }
